@@ -10,6 +10,12 @@ CHECKS = {
  "C04": ("sanitizing in sacrificial child processes: recover(), per-call heap-allocation meter, per-call watchdog, RLIMIT_AS, journal-attributed process death; structure-aware mutation of valid encodings",
          "Every decoder entry point discovered in the tree (all generated model parsers + packet/name readers, through the contiguous and the segmented reader) and the forwarder receive path (stream framing, NDNLP decode/reassembly/PIT-token dispatch with 1/2/8 threads) are fed ~4.5x10^5 (quick) to ~2.7x10^7 (thorough) hostile inputs; a panic, a process death, an allocation above 1 MiB + 256 x input, a call above 2 s / a 20 s hang, or a state change caused by an undecodable frame is a violation.",
          "Allocation measured through runtime/metrics; socket listeners are exercised through the functions their receive loops call; hooks: fw/face/verif_hooks.go.", "5/C04"),
+ "C10": ("runtime monitor on a real sender/receiver NDNLP link-service pair over a recording in-memory transport; frames checked by an independent walker; recorded deliveries compared with what was sent",
+         "Valid packets of exact sizes (minimum..8800, boundary sizes around k x payload and MTU - overhead) x MTU 128..8800 x options x token/mark combinations are sent; every frame must fit the MTU and be one LpPacket, a fitting packet must be one frame, no truncation with fragmentation off; frames of up to three concurrent messages are delivered in shuffled/reversed/rotated order with a duplicated fragment; each message must arrive exactly once, byte-identical, with its PIT token and congestion mark. ~10^4 (quick) / 4.8x10^5 (thorough) cases.",
+         "Header budget W computed by the harness from NDNLPv2 field sizes; link-service congestion marking switched off in the harness config; hooks: fw/face/verif_hooks.go.", "5/C10"),
+ "C11": ("runtime monitor: the stream framing loop driven by a scripted io.Reader, delivered frames compared with the blocks written; StreamFace counterpart over a Unix socket",
+         "Streams of 0.6-6 MB of well-formed blocks (1/3-byte types, 1/3/5-byte length forms, sizes 2..8800 including exactly 8800) are delivered under seven chunking plans (1-byte, small random, large random, whole-buffer, every cut inside T/L headers and one byte before block ends, 32x8800 wrap points, mixed); the frame sequence handed to the link layer must equal the block sequence exactly, the reader must return nil at EOF.",
+         "Frames are copied inside the callback; kernel chunking of the socket counterpart is not controlled; hooks: fw/face/verif_hooks.go.", "5/C11"),
  "C12": ("runtime monitor: signer input vs parser-reported vs independently computed signed portion; exhaustive/sampled single-bit tampering against decode + matching validator",
          "For every generated signed packet (all shipped signers, Data and Interest variants) the bytes handed to the signer, the signed portion the parser returns (contiguous and segmented) and the spec-defined portion located by an independent walker must be identical, the matching validator and the harness's own crypto must accept; then every single-bit flip inside signed portion / signature value / parameters (all bits of small packets, uniform sample of large ones; ~7x10^5 flips per quick run) must be rejected; wrong parameter digests must be rejected.",
          "Trusted: internal/tlvwalk signed-range computation per NDN packet spec v0.3; Go crypto.", "5/C12"),
